@@ -1,12 +1,94 @@
-(* C01 — complete, ordered, gap-free segmentation. (theorems added as proved) *)
+(* C01 — the cycle table is a complete, ordered, gap-free segmentation.
+   Model: Model/Features.v (compute_features) = Model/Extrema.v + Model/Zerox.v + Model/Cycles.v
+   + burst features + labels.  `k_pos` are the sign bits of the reference band-pass of the padded
+   signal (an input of the model); the hypothesis `length raw + 2 * k_padn k = length (k_pos k)`
+   says they have the padded length.  All statements are structural: no logical axioms (Print
+   Assumptions lists only primitive float/int declarations the model mentions). *)
 From Coq Require Import List Arith Bool ZArith Floats.PrimFloat.
 Import ListNotations.
-From ByC Require Import Base.Result Model.Cycles.
+From ByC Require Import Base.Result Model.Labels Model.Extrema Model.Cycles Model.Features.
+From ByC Require Proofs.Extrema Proofs.Cycles.
+Import Proofs.Cycles.
 
-Theorem C01_placeholder_rows_need_equal_columns : forall p t r d rows,
-  cycle_rows p t r d = Ok rows -> length rows = length (tl p).
-Proof.
-  intros p t r d rows. unfold cycle_rows.
-  destruct (_ && _)%bool; [|discriminate]. intros [= <-]. now rewrite map_length, seq_length.
-Qed.
-Print Assumptions C01_placeholder_rows_need_equal_columns.
+(* the find_extrema call made by the analysis: first extremum forced to a peak, on the negated
+   signal for trough centring *)
+Notation xin c raw k b :=
+  {| x_pos := k_pos k; x_raw := (match c with Peak => raw | Trough => map PrimFloat.opp raw end); x_padn := k_padn k; x_boundary := b; x_first := FPeak |}.
+
+(* every returned table: non-empty; in each row last < centre < next with the midpoints
+   (inclusively) between the extrema they separate; every index inside (boundary, len - boundary);
+   consecutive rows share their side extremum (tiling) and the midpoint between them; rows are
+   the consecutive extrema of an interleaved peak/trough sequence (strict alternation);
+   one row per cycle *)
+Theorem C01_segmentation : forall c raw k b m out,
+  compute_features c raw k b m = Ok out ->
+  length raw + 2 * k_padn k = length (k_pos k) -> (0 <= b)%Z ->
+  let rows := map r_s out in
+  (rows <> [] /\ Forall (row_ordered_c c) rows /\
+   Forall (fun r => row_within b (Z.of_nat (length raw))
+                      (match c with Peak => r | Trough => rename_srow r end)) rows /\
+   tiled rows /\
+   (forall j, S j < length rows ->
+      s_zx_decay (nth j (match c with Peak => rows | Trough => map rename_srow rows end) (Build_srow 0 0 0 0 0 0)) =
+      s_last_zx (nth (S j) (match c with Peak => rows | Trough => map rename_srow rows end) (Build_srow 0 0 0 0 0 0)))) /\
+  exists peaks troughs,
+    find_extrema (xin c raw k b) = Ok (peaks, troughs) /\
+    Proofs.Extrema.interleaved peaks troughs /\
+    length out = length peaks - 1 /\ 2 <= length peaks /\
+    (forall j, j < length out ->
+       let r := nth j (match c with Peak => rows | Trough => map rename_srow rows end)
+                    (Build_srow 0 0 0 0 0 0) in
+       s_center r = nth (S j) peaks 0%Z /\ s_last r = nth j troughs 0%Z /\ s_next r = nth (S j) troughs 0%Z /\
+       (s_last r < s_center r < s_next r)%Z) /\
+    (forall j, S j < length out ->
+       s_next (nth j rows (Build_srow 0 0 0 0 0 0)) = s_last (nth (S j) rows (Build_srow 0 0 0 0 0 0))).
+Proof. exact compute_features_segmentation. Qed.
+Print Assumptions C01_segmentation.
+
+(* with row_ordered, row_within puts all six sample indices strictly inside (boundary, len - boundary) *)
+Theorem C01_all_indices_beyond_boundary : forall b n r, row_ordered r -> row_within b n r ->
+  (b < s_last_zx r < n - b)%Z /\ (b < s_last r < n - b)%Z /\ (b < s_zx_rise r < n - b)%Z /\
+  (b < s_center r < n - b)%Z /\ (b < s_zx_decay r < n - b)%Z /\ (b < s_next r < n - b)%Z.
+Proof. exact row_all_within. Qed.
+Print Assumptions C01_all_indices_beyond_boundary.
+
+(* a table is returned instead of an error exactly when at least two peaks (and two troughs)
+   survive the boundary filter and the trimming *)
+Theorem C01_table_iff_two_cycles_survive : forall c raw k b,
+  length raw + 2 * k_padn k = length (k_pos k) -> (0 <= b)%Z ->
+  (exists tab, shape_table c raw k b = Ok tab) <->
+  exists peaks troughs, find_extrema (xin c raw k b) = Ok (peaks, troughs) /\ 2 <= length peaks.
+Proof. exact shape_table_ok_iff_partial. Qed.
+Print Assumptions C01_table_iff_two_cycles_survive.
+
+(* the only failures of the modelled logic: no oscillation at all (Degenerate), fewer than two
+   cycles (Index), or settings rejected by the labelling (Value) *)
+Theorem C01_failure_classes : forall c raw k b m e,
+  compute_features c raw k b m = Err e ->
+  length raw + 2 * k_padn k = length (k_pos k) ->
+  e = EDegenerate \/ e = EIndex \/
+  (e = EValue /\
+   match m with
+   | Cycles t n => thr_valid t = false \/ (n < 0)%Z
+   | Amp _ t n => in_range t 0%float 1%float = false \/ (n < 0)%Z
+   end).
+Proof. exact compute_features_err. Qed.
+Print Assumptions C01_failure_classes.
+
+(* row assembly by the six shifted slices *)
+Theorem C01_row_assembly : forall peaks troughs rises decays,
+  length troughs = length peaks -> length decays = length peaks ->
+  length rises = length peaks - 1 -> peaks <> [] ->
+  exists rows, cycle_rows peaks troughs rises decays = Ok rows /\
+    length rows = length peaks - 1 /\
+    forall k, k < length rows ->
+      nth k rows (Build_srow 0 0 0 0 0 0) =
+      {| s_center := nth (S k) peaks 0%Z; s_last := nth k troughs 0%Z; s_next := nth (S k) troughs 0%Z;
+         s_zx_rise := nth k rises 0%Z; s_zx_decay := nth (S k) decays 0%Z; s_last_zx := nth k decays 0%Z |}.
+Proof. exact cycle_rows_spec. Qed.
+Print Assumptions C01_row_assembly.
+
+(* non-vacuity: a concrete input yields a table with at least two rows *)
+Theorem C01_nonvacuous : exists tab, shape_table Peak ex_raw ex_k 0 = Ok tab /\ 2 <= length tab.
+Proof. exact shape_table_peak_nonvacuous. Qed.
+Print Assumptions C01_nonvacuous.
